@@ -1,10 +1,16 @@
 /* rt_atomic_seq.c - atomic instructions for *sequential* units: no interference, orders ignored.
  * Thread-modular units do not link this file; they supply protocol primitives (DESIGN 3.3). */
+/* bounded drives of single-threaded scenarios define CV_NO_SPURIOUS_CAS: a spurious failure of a weak CAS only adds a retry */
+#ifdef CV_NO_SPURIOUS_CAS
+#define CV_SPURIOUS(weak) 0
+#else
+#define CV_SPURIOUS(weak) ((weak) && nondet_bool())
+#endif
 #define CV_DEF_ATOMIC(sfx, T) \
   T cv_atomic_load_##sfx(T *p, int ord) { return *p; } \
   void cv_atomic_store_##sfx(T *p, T v, int ord) { *p = v; } \
   cv_i1 cv_cmpxchg_##sfx(T *p, T *expected, T desired, int weak, int so, int fo) { \
-    T old = *p; if (old == *expected && !(weak && nondet_bool())) { *p = desired; return 1; } *expected = old; return 0; } \
+    T old = *p; if (old == *expected && !CV_SPURIOUS(weak)) { *p = desired; return 1; } *expected = old; return 0; } \
   T cv_atomic_xchg_##sfx(T *p, T v, int ord) { T old = *p; *p = v; return old; } \
   T cv_atomic_add_##sfx(T *p, T v, int ord) { T old = *p; *p = old + v; return old; } \
   T cv_atomic_sub_##sfx(T *p, T v, int ord) { T old = *p; *p = old - v; return old; } \
@@ -13,4 +19,15 @@
 CV_DEF_ATOMIC(i8, cv_i8)
 CV_DEF_ATOMIC(i32, cv_i32)
 CV_DEF_ATOMIC(i64, cv_i64)
+/* 64-bit atomics that ir2c recognised as views of pointer-typed memory (bitcast T** -> i64*, libstdc++'s atomic<T*>): the cell is accessed
+ * as a pointer so that symbolic execution keeps concrete pointer values instead of opaque integers */
+cv_i64 cv_p64_load(void **p, int ord) { return (cv_i64)*p; }
+void cv_p64_store(void **p, cv_i64 v, int ord) { *p = (void *)v; }
+cv_i1 cv_p64_cmpxchg(void **p, cv_i64 *expected, cv_i64 desired, int weak, int so, int fo) {
+  void *old = *p; if (old == (void *)*expected && !CV_SPURIOUS(weak)) { *p = (void *)desired; return 1; } *expected = (cv_i64)old; return 0; }
+cv_i64 cv_p64_xchg(void **p, cv_i64 v, int ord) { void *old = *p; *p = (void *)v; return (cv_i64)old; }
+#define CV_P64_LOAD(p, o) cv_p64_load((void **)(p), o)
+#define CV_P64_STORE(p, v, o) cv_p64_store((void **)(p), v, o)
+#define CV_P64_CMPXCHG(p, e, d, w, so, fo) cv_p64_cmpxchg((void **)(p), e, d, w, so, fo)
+#define CV_P64_XCHG(p, v, o) cv_p64_xchg((void **)(p), v, o)
 void cv_fence(int ord) {}
